@@ -88,6 +88,29 @@ def machine_sample(body, pieces, wbits):
     return a == b == c
 
 
+def after_eof_sample(body, wbits):
+    """assumption sampling (premise of C19_data_after_end_marker_ignored): once eof is set,
+    every further byte is swallowed - no output, no error, eof stays set, flush() stays empty.
+    Returns (ok, number of bytes fed after eof)."""
+    d = zlib.decompressobj(wbits)
+    n = 0
+    try:
+        for i in range(len(body)):
+            was = d.eof
+            o = d.decompress(body[i:i + 1])
+            if was:
+                n += 1
+                if o or not d.eof:
+                    return False, n
+        if d.eof:
+            # also in one larger piece after eof
+            if d.decompress(b'trailing bytes') or not d.eof or d.flush():
+                return False, n
+    except zlib.error:
+        return (not d.eof), n          # an error BEFORE eof is fine; after eof it breaks the law
+    return True, n
+
+
 def cps(s):
     """str -> hex6 code point string"""
     return ''.join('%06x' % ord(c) for c in s)
@@ -166,9 +189,47 @@ def lower_fact():
     return {'checked': 0x110000, 'bad': bad[:10]}
 
 
+def gzip_deflate_offset(b):
+    """harness-side reading of RFC 1952: where the deflate data of a gzip member starts
+    (None: the fixed header is invalid or the optional fields are incomplete).  Only used to
+    cut out the part of the body the RAW inflater table is recorded on."""
+    if len(b) < 10 or b[0] != 0x1f or b[1] != 0x8b or b[2] != 8 or b[3] & 0xe0:
+        return None
+    flg, i = b[3], 10
+    if flg & 4:
+        if i + 2 > len(b):
+            return None
+        i += 2 + (b[i] | b[i + 1] << 8)
+    for bit in (8, 16):
+        if flg & bit:
+            j = b.find(b'\x00', i)
+            if j < 0:
+                return None
+            i = j + 1
+    if flg & 2:
+        i += 2
+    return i if i <= len(b) else None
+
+
+def wrap_case(body):
+    """tables of the real zlib for wbits 15 / 31 and of the real RAW inflater on the deflate
+    part, for the comparison with Model/DecompWrap (concrete framing over the raw table)."""
+    off = gzip_deflate_offset(body)
+    ae = [after_eof_sample(body, w) for w in WB.values()]
+    return {'W15': table(body, 15), 'W31': table(body, 31),
+            'after_eof_ok': all(a for a, _ in ae), 'after_eof_n': sum(n for _, n in ae),
+            'machine_ok': all(machine_sample(body, [body[:len(body) // 2], body[len(body) // 2:]] if len(body) > 1 else [body], w)
+                              for w in WB.values()),
+            'raw15': table(body[2:], -15) if len(body) > 2 else None,
+            'raw31': table(body[off:], -15) if off is not None and off < len(body) else None}
+
+
 def main():
     req = json.load(sys.stdin)
     res = []
+    if req.get('wrap') is not None:
+        print(json.dumps({'results': [wrap_case(bytes.fromhex(h)) for h in req['wrap']]}))
+        return
     if req.get('glue') is not None:
         from harness.compat import new_loop
         loop = new_loop()
@@ -211,6 +272,9 @@ def main():
         if case.get('tables'):
             r['tables'] = {k: table(body, w) for k, w in WB.items()}
         r['machine_ok'] = all(machine_sample(body, pieces, w) for w in WB.values())
+        ae = [after_eof_sample(body, w) for w in WB.values()]
+        r['after_eof_ok'] = all(a for a, _ in ae)
+        r['after_eof_n'] = sum(n for _, n in ae)
         res.append(r)
     print(json.dumps({'results': res}))
 
